@@ -101,7 +101,7 @@ def gen_sysworld(rng, small=False):
                                   "header": rng.choice(["names", "letters"]), "shuffle": rng.randint(0, 10 ** 6)}})
     build = {"path": rng.weighted([("direct", 3), ("reader", 2), ("csv", 3), ("excel", 2)]),
              "dimfiles": {d["letter"]: {"orient": rng.choice(["row", "col"]), "header": rng.chance(0.5)} for d in dims},
-             "sheets": rng.chance(0.6), "one_workbook": rng.chance(0.5),
+             "sheets": rng.chance(0.6), "one_workbook": rng.chance(0.5), "flags": [rng.chance(0.3), rng.chance(0.3)],
              "dict_order": rng.randint(0, 10 ** 6)}
     return {"alias": rng.randint(0, 1), "dims": dims, "processes": procs, "flows": flows, "stocks": stocks, "params": params, "naming": naming, "build": build}
 
@@ -203,7 +203,7 @@ def fault_applicable(world, f):
             return False
         if k == "missing_sheet":
             return world["build"]["path"] == "excel" and bool(world["build"]["sheets"])
-        if k in ("missing_param_file", "param_row_dropped", "param_row_duplicated", "param_file_eacces"):
+        if k in ("missing_param_file", "param_row_dropped", "param_row_duplicated", "param_row_unknown", "param_file_eacces"):
             return bool(world["params"])
         return True
     if k.startswith("flow_"):
@@ -235,7 +235,7 @@ def fault_applicable(world, f):
 
 DEF_FAULTS = ["flow_undefined_dim", "flow_undefined_process", "stock_undefined_dim", "stock_undefined_process",
               "stock_missing_lifetime", "stock_unused_lifetime", "stock_time_not_first", "param_undefined_dim", "sysenv_not_first"]
-FILE_FAULTS = ["dimfile_2d", "missing_dim_file", "missing_param_file", "missing_sheet", "param_row_dropped", "param_row_duplicated",
+FILE_FAULTS = ["dimfile_2d", "missing_dim_file", "missing_param_file", "missing_sheet", "param_row_dropped", "param_row_duplicated", "param_row_unknown",
                "dim_file_eio", "param_file_eacces"]
 
 
@@ -297,6 +297,16 @@ def write_files(world, tmp, faults=(), applied=None):
             df = df.drop(df.index[fl["param_row_dropped"].get("row", 0) % len(df)]).reset_index(drop=True)
             if applied is not None:
                 applied.add("param_row_dropped")
+        if "param_row_unknown" in fl and n == fl["param_row_unknown"]["k"] % len(world["params"]) and len(df) > 0:
+            # a surplus row whose first label is an item the dimension does not have
+            extra = df.iloc[[fl["param_row_unknown"].get("row", 0) % len(df)]].copy()
+            d0 = _dim(world, p["dims"][0] if p["layout"]["wide"] != 0 or len(p["dims"]) < 2 else p["dims"][1])
+            col = d0["name"] if p["layout"]["header"] == "names" else d0["letter"]
+            if col in extra.columns:
+                extra[col] = {"int": 987654, "float": 987654.5, "str": "unknown_item"}[d0["dtype"]]
+                df = pd.concat([df, extra], ignore_index=True)
+                if applied is not None:
+                    applied.add("param_row_unknown")
         if "param_row_duplicated" in fl and n == fl["param_row_duplicated"]["k"] % len(world["params"]):
             df = pd.concat([df, df.iloc[[fl["param_row_duplicated"].get("row", 0) % len(df)]]], ignore_index=True)
             if applied is not None:
@@ -402,14 +412,20 @@ def build_system(world, tmp, faults=(), cls=GenericSystem, applied=None, definit
             return real_open(file, *a, **k)
         pic.open = failing_open
     try:
+        am, ae = world["build"].get("flags", [False, False])
+        kwf = {}
+        if am:
+            kwf["allow_missing_parameter_values"] = True
+        if ae:
+            kwf["allow_extra_parameter_values"] = True
         if path == "csv":
-            return cls.from_csv(definition, dimension_files=dim_files, parameter_files=prm_files), definition
-        return _from_excel(cls, definition, dim_files, prm_files, dim_sheets, prm_sheets, seed), definition
+            return cls.from_csv(definition, dimension_files=dim_files, parameter_files=prm_files, **kwf), definition
+        return _from_excel(cls, definition, dim_files, prm_files, dim_sheets, prm_sheets, seed, kwf), definition
     finally:
         if bad_path is not None:
             del pic.open
 
 
-def _from_excel(cls, definition, dim_files, prm_files, dim_sheets, prm_sheets, seed):
-    return cls.from_excel(definition, dimension_files=dim_files, parameter_files=prm_files,
+def _from_excel(cls, definition, dim_files, prm_files, dim_sheets, prm_sheets, seed, kwf):
+    return cls.from_excel(definition, dimension_files=dim_files, parameter_files=prm_files, **kwf,
                           dimension_sheets=_reorder(dim_sheets, seed + 2), parameter_sheets=_reorder(prm_sheets, seed + 3))
